@@ -383,19 +383,38 @@ def check(chk):
                   'metadata fields stored as flags, colcount, paging_state, result_metadata_id', 'metadata fields are stored as %s' % roles)
         loop = [f for f in fs if f[0] == 'loop'][0]
         lr = [x[1] for x in loop[1]]
-        chk.judge(lr == ['colksname', 'colcfname', 'colname', 'coltype'], 'C04.rows', rmeta, 'column spec read as keyspace, table, name, type',
-                  'column specification fields are bound as %s' % lr)
+        kinds = [x[0] for x in loop[1]]
+        spec_names = lr
+        chk.judge(len(lr) == 4 and kinds[:3] == ['string', 'string', 'string'] and len(set(lr)) == 4, 'C04.rows', rmeta, 'column spec read as [string] keyspace, [string] table, [string] name, [option] type',
+                  'column specification fields are read as %s bound to %s' % (kinds, lr))
     # the tuple appended per column
+    want_names = {}
     for fn_name, ctor in (('recv_results_metadata', None), ('recv_prepared_metadata', 'ColumnMetadata')):
         fn, _ = interp0.resolve_method(rm, fn_name)
+        # the names the per-column loop binds, in the order it binds them (keyspace, table - from the global spec or read per column -, name, type)
+        col_loops = [n for n in body_walk(fn) if isinstance(n, ast.For) and 'colcount' in src(n.iter)]
+        order = []
+        for lp_ in col_loops[:1]:
+            def _collect(stmts):
+                for st in stmts:
+                    if isinstance(st, ast.Assign) and len(st.targets) == 1 and isinstance(st.targets[0], ast.Name):
+                        if st.targets[0].id not in order:
+                            order.append(st.targets[0].id)
+                    elif isinstance(st, ast.If):
+                        _collect(st.body)
+                        _collect(st.orelse)
+            _collect(lp_.body)
+        want_names[fn_name] = order[:4]
+        if len(order) < 4:
+            raise AnalysisError('%s: per-column loop not recognised (%s)' % (fn_name, order))
         apps = [n for n in body_walk(fn) if isinstance(n, ast.Call) and isinstance(n.func, ast.Attribute) and n.func.attr == 'append' and n.args]
         good = False
         for a in apps:
             v = a.args[0]
             elts = v.elts if isinstance(v, ast.Tuple) else (v.args if isinstance(v, ast.Call) else [])
-            if [src(e) for e in elts] == ['colksname', 'colcfname', 'colname', 'coltype']:
+            if [src(e) for e in elts] == want_names[fn_name]:
                 good = True
-        chk.judge(good, 'C04.rows', fn, '%s appends (keyspace, table, name, type)' % fn_name, 'column metadata entry is no longer (colksname, colcfname, colname, coltype)')
+        chk.judge(good, 'C04.rows', fn, '%s appends (keyspace, table, name, type) in the order they were read' % fn_name, 'column metadata entry is no longer %s' % (want_names[fn_name],))
 
     # rows
     rr, rro = interp0.resolve_method(rm, 'recv_results_rows')
